@@ -15,11 +15,14 @@ def parseFrames (s : String) : Option (List (WsMsg × Nat)) :=
     | "b", some p | "t", some p => some (WsMsg.data p, wsFrameSize p.length)
     | "p", some p => some (WsMsg.control, wsFrameSize p.length)
     | "c", _ => some (WsMsg.control, 2)
+    | "x", some p => some (WsMsg.fail, p.length)
+    | "e", _ => some (WsMsg.eof, 0)
     | _, _ => none)
 
 def wsResultText : WsResult → String
   | .ok b => s!"ok:{hexOf b}"
   | .wouldBlock => "wouldblock"
+  | .err => "err"
 
 /-- frames fully contained in the first `avail` bytes of the stream, and the rest -/
 def takeComplete : List (WsMsg × Nat) → Nat → Nat → List WsMsg × List (WsMsg × Nat) × Nat
